@@ -47,6 +47,9 @@ KINDS_G = KINDS + ["collect", "apply"]
 # ---------------------------------------------------------------------------------------------
 
 def _mk_event(i):
+    if i % 7 == 0 and i < 9000:
+        # metadata events travel through the stages (and wait at barriers) like any other event
+        return {"ph": "M", "ts": 1.0, "pid": 0, "tid": 0, "name": "process_name", "args": {"id": i, "name": "p"}}
     return {"ph": "X", "ts": 1.0, "dur": 1.0, "pid": 0, "tid": 0, "name": "n", "args": {"id": i}}
 
 
@@ -63,7 +66,7 @@ class Runaway(Exception):
     pass
 
 
-def run_real(kinds, inp, shared=False):
+def run_real(kinds, inp, shared=False, off=()):
     """returns dict(out=[ids], log=[(stage label,id)], emis={stage:[ids...]}, drains=[stage...]).
     shared=True: every stateless behaviour is ONE callback object registered without a context (a
     stateless stage written against the developer README and registered more than once); its
@@ -75,6 +78,9 @@ def run_real(kinds, inp, shared=False):
     from aiu_trace_analyzer.core.stage_profile import StageProfile
     from aiu_trace_analyzer.pipeline.context import AbstractContext
 
+    # `off`: positions whose profile entry is disabled - the registration is requested but must be skipped; the
+    # result is reported in the numbering of the ENABLED stages (a delivery to a disabled one shows as -1-i)
+    off = set(off or ())
     log, emis, drains = [], {i: [] for i in range(len(kinds))}, []
     tick = [0]
     # upper bound on what ONE stage can be handed if every event is delivered once: dup doubles, expand triples,
@@ -174,7 +180,7 @@ def run_real(kinds, inp, shared=False):
             shared_cbs[kind] = cb
         return shared_cbs[kind]
 
-    tp_idx = [i for i, k in enumerate(kinds) if k in ("collect", "apply")]
+    tp_idx = [i for i, k in enumerate(kinds) if k in ("collect", "apply") and i not in off]
     tp_drained = [0]
 
     class TwoPhase(barrier_mod.TwoPhaseWithBarrierContext):
@@ -215,7 +221,7 @@ def run_real(kinds, inp, shared=False):
 
     names = ["pipeline_barrier" if k == "barrier" else (k if shared and k in STATELESS else f"{k}{i}")
              for i, k in enumerate(kinds)]
-    prof_data = {"stages": [{n: True} for n in names]}
+    prof_data = {"stages": [{n: (i not in off)} for i, n in enumerate(names)]}
     profile = StageProfile(copy.deepcopy(prof_data), copy.deepcopy(prof_data)) if names else None
     if profile is None:
         class _P:  # an empty profile: StageProfile cannot be built from an empty stage list
@@ -228,7 +234,7 @@ def run_real(kinds, inp, shared=False):
     orig_drain = type(bctx).drain
 
     # which barrier registration is being drained: the engine pops stages front to back
-    barrier_idx = [i for i, k in enumerate(kinds) if k == "barrier"]
+    barrier_idx = [i for i, k in enumerate(kinds) if k == "barrier" and i not in off]
     drained_barriers = [0]
 
     def logged_drain():
@@ -271,6 +277,15 @@ def run_real(kinds, inp, shared=False):
             del bctx.drain
         bctx.hold = []
     del tick, cur_barrier
+    if off:
+        eff = {}
+        for i in range(len(kinds)):
+            if i not in off:
+                eff[i] = len(eff)
+        ren = lambda i: eff.get(i, -1 - i) if isinstance(i, int) else i     # noqa: E731
+        log = [(ren(i), x) for i, x in log]
+        emis = {ren(i): v for i, v in emis.items() if i in eff or v}
+        drains = [ren(i) for i in drains]
     return {"out": out, "log": log, "emis": emis, "drains": drains}
 
 
@@ -453,6 +468,12 @@ def sys_argv_guard():
     return restore
 
 
+def eff_kinds(case):
+    """the stages that are really part of the pipeline: those whose profile entry is enabled"""
+    off = set(case.get("off") or ())
+    return [k for i, k in enumerate(case["kinds"]) if i not in off]
+
+
 def oracle_on_case(ctx: Ctx, case, verbose=False):
     if case.get("history"):
         got, want = run_history(case["history"])
@@ -464,9 +485,9 @@ def oracle_on_case(ctx: Ctx, case, verbose=False):
                           f"barrier held events exports slices {got}; the same run alone exports {want} (events delivered that no "
                           f"earlier stage of this pipeline returned / delivered twice)", case)
         return {"out": got, "log": [], "emis": {}, "drains": []}
-    kinds, inp = case["kinds"], case["input"]
+    kinds, inp = eff_kinds(case), case["input"]
     try:
-        r = run_real(kinds, inp, case.get("shared", False))
+        r = run_real(case["kinds"], inp, case.get("shared", False), case.get("off"))
     except Runaway as ex:
         ctx.violation("engine-delivery", f"pipeline {kinds} on {len(inp)} input events: {ex} (events delivered more than "
                                          f"once / delivered that no stage returned)", case)
@@ -488,8 +509,13 @@ def run(ctx: Ctx):
     cases, reals = [], []
     for kinds, inp, shared in gen_cases(ctx):
         case = {"kinds": kinds, "input": inp, "shared": shared}
+        if len(kinds) >= 2 and ctx.rng.random() < 0.2:
+            # a profile that switches some of the requested stages off (also one of several same-named entries)
+            case["off"] = sorted(ctx.rng.sample(range(len(kinds)), ctx.rng.randint(1, min(3, len(kinds) - 1))))
         r = oracle_on_case(ctx, case)
-        ctx.case_done(case, key=(tuple(kinds), tuple(inp), shared), nontrivial=nontrivial(kinds, inp, r))
+        ctx.case_done(case, key=(tuple(kinds), tuple(inp), shared, tuple(case.get("off", ()))),
+                      nontrivial=nontrivial(eff_kinds(case), inp, r))
+        ctx.count("graphs_with_disabled_stages", int(bool(case.get("off"))))
         ctx.count("shared_callback_cases", int(shared))
         ctx.count("graphs_with_barrier", int("barrier" in kinds))
         ctx.count("graphs_with_two_barriers", int(kinds.count("barrier") >= 2))
@@ -500,23 +526,23 @@ def run(ctx: Ctx):
     if ctx.search_mode or not ctx.driver or not ctx.driver.ok:
         return
     # every case against the global-store engine (GStage.run / runLog) ...
-    outs_g = ctx.driver.ask([line(c["kinds"], c["input"]).replace("c03 ", "c03g ", 1) for c in cases])
+    outs_g = ctx.driver.ask([line(eff_kinds(c), c["input"]).replace("c03 ", "c03g ", 1) for c in cases])
     for case, r, o in zip(cases, reals, outs_g):
         m = parse_model(o)
         sh = case.get("shared", False)
-        lab = [k if (sh and k in STATELESS) else i for i, k in enumerate(case["kinds"])]
+        lab = [k if (sh and k in STATELESS) else i for i, k in enumerate(eff_kinds(case))]
         ctx.compare("global-store engine model (GStage) vs EventProcessor/Engine.run (exported ids + delivery log)", case,
                     {"out": m["out"], "log": [[lab[i], x] for (i, x) in m["log"]]},
                     {"out": r["out"], "log": [list(x) for x in r["log"]]})
         ctx.count("graphs_with_shared_two_phase_context", int("collect" in case["kinds"] or "apply" in case["kinds"]))
     # ... and the graphs without a two-phase context also against the private-state / shared-barrier engine
-    pairs = [(c, r) for c, r in zip(cases, reals) if "collect" not in c["kinds"] and "apply" not in c["kinds"]]
+    pairs = [(c, r) for c, r in zip(cases, reals) if "collect" not in eff_kinds(c) and "apply" not in eff_kinds(c)]
     cases, reals = [c for c, _ in pairs], [r for _, r in pairs]
-    outs = ctx.driver.ask([line(c["kinds"], c["input"]) for c in cases])
+    outs = ctx.driver.ask([line(eff_kinds(c), c["input"]) for c in cases])
     for case, r, o in zip(cases, reals, outs):
         m = parse_model(o)
         sh = case.get("shared", False)
-        lab = [k if (sh and k in STATELESS) else i for i, k in enumerate(case["kinds"])]
+        lab = [k if (sh and k in STATELESS) else i for i, k in enumerate(eff_kinds(case))]
         ctx.compare("engine model vs EventProcessor/Engine.run (exported ids + delivery log)", case,
                     {"out": m["out"], "log": [[lab[i], x] for (i, x) in m["log"]]},
                     {"out": r["out"], "log": [list(x) for x in r["log"]]})
